@@ -28,13 +28,14 @@ NET_OBS = ["vector", "image", "dict", "tuple", "discrete", "sequence"]
 # ------------------------------------------------------------------------------------------------
 # construction
 # ------------------------------------------------------------------------------------------------
-def _obs_space(kind: str) -> spaces.Space:
+def _obs_space(kind: str, hw=(12, 12)) -> spaces.Space:
+    h, w_ = int(hw[0]), int(hw[1])
     if kind == "vector":
         return spaces.Box(-1.0, 1.0, (5,), np.float32)
     if kind == "image":
-        return spaces.Box(0.0, 1.0, (3, 12, 12), np.float32)
+        return spaces.Box(0.0, 1.0, (3, h, w_), np.float32)
     if kind == "dict":
-        return spaces.Dict({"a": spaces.Box(-1.0, 1.0, (3,), np.float32), "b": spaces.Box(0.0, 1.0, (3, 12, 12), np.float32)})
+        return spaces.Dict({"a": spaces.Box(-1.0, 1.0, (3,), np.float32), "b": spaces.Box(0.0, 1.0, (3, h, w_), np.float32)})
     if kind == "tuple":
         return spaces.Tuple((spaces.Box(-1.0, 1.0, (3,), np.float32), spaces.Box(0.0, 1.0, (1, 10, 10), np.float32)))
     if kind == "discrete":
@@ -73,9 +74,10 @@ def build(case: Dict[str, Any]):
         return m, (lambda r, n: (torch.as_tensor(r.randn(n, 5).astype(np.float32)),)), ("tensor", (nout,))
     if kind == "CNN2d":
         kw = dict(min_hidden_layers=1, max_hidden_layers=3, min_channel_size=4, max_channel_size=20) if tight else dict(min_channel_size=8, max_channel_size=64)
-        m = EvolvableCNN(input_shape=[3, 12, 12], num_outputs=nout, channel_size=[8] if tight else [16, 16], kernel_size=[3] if tight else [3, 3],
+        h, w_ = case.get("img_hw", [12, 12])
+        m = EvolvableCNN(input_shape=[3, h, w_], num_outputs=nout, channel_size=[8] if tight else [16, 16], kernel_size=[3] if tight else [3, 3],
                          stride_size=[1] if tight else [1, 1], layer_norm=case.get("layer_norm", False), **kw)
-        return m, (lambda r, n: (torch.as_tensor(r.rand(n, 3, 12, 12).astype(np.float32)),)), ("tensor", (nout,))
+        return m, (lambda r, n: (torch.as_tensor(r.rand(n, 3, h, w_).astype(np.float32)),)), ("tensor", (nout,))
     if kind == "CNN3d":
         m = EvolvableCNN(input_shape=[3, 2, 10, 10], num_outputs=nout, channel_size=[8], kernel_size=[(1, 3, 3)] if case.get("tuple_kernels") else [3], stride_size=[1], block_type="Conv3d",
                          sample_input=torch.zeros(1, 3, 2, 10, 10), min_hidden_layers=1, max_hidden_layers=3, min_channel_size=4, max_channel_size=24)
@@ -93,13 +95,13 @@ def build(case: Dict[str, Any]):
         m = EvolvableResNet(input_shape=[3, 12, 12], num_outputs=nout, channel_size=8 if tight else 16, kernel_size=3, stride_size=1, num_blocks=1, **kw)
         return m, (lambda r, n: (torch.as_tensor(r.rand(n, 3, 12, 12).astype(np.float32)),)), ("tensor", (nout,))
     if kind == "MultiInput":
-        sp = _obs_space(case.get("obs", "dict"))
+        sp = _obs_space(case.get("obs", "dict"), case.get("img_hw", [12, 12]))
         m = EvolvableMultiInput(observation_space=sp, num_outputs=nout, latent_dim=16, vector_space_mlp=case.get("vector_space_mlp", False),
                                 min_latent_dim=8, max_latent_dim=40 if tight else 128)
         return m, (lambda r, n: (_sample_input(sp, r, n),)), ("tensor", (nout,))
     # ---- networks ----
     obs = case["obs"]
-    sp = _obs_space(obs)
+    sp = _obs_space(obs, case.get("img_hw", [12, 12]))
     nc: Dict[str, Any] = {}
     if tight:
         nc["head_config"] = {"hidden_size": [16], "min_hidden_layers": 1, "max_hidden_layers": 2, "min_mlp_nodes": 8, "max_mlp_nodes": 40}
@@ -229,6 +231,7 @@ def gen(prop: str, rng: random.Random, tier: str) -> Dict[str, Any]:
             obs = "vector"
         case = {"kind": kind, "obs": obs, "act": rng.choice(["discrete", "box"]), "simba": kind != "RainbowQNetwork" and rng.random() < 0.15,
                 "no_activation_key": rng.random() < 0.15, "companion": rng.random() < 0.5}
+    case["img_hw"] = rng.choice([[12, 12], [12, 12], [8, 24], [10, 40], [24, 8], [16, 16]])  # square, landscape and portrait images
     long_walk = rng.random() < 0.25
     case["tight"] = (not long_walk) and rng.random() < 0.75
     n = rng.randint(20, 60) if (long_walk and tier == "thorough") else rng.randint(3, 14 if tier == "quick" else 30)
@@ -348,6 +351,14 @@ def _run(ctx: kernel.Ctx, prop: str, case: Dict[str, Any], loc: Dict[str, Any]) 
             if not outside:
                 continue
             was = before.get(path)
+            if was is None:
+                # a new layer: it inherits the size of an existing layer; if that one already sat outside its declared range
+                # (the default multi-input CNN starts with 16 channels against min_channel_size=32) nothing moved outside
+                kind = path.rsplit(".", 1)[-1].split("[")[0]
+                prefix = path.rsplit(".", 1)[0] if "." in path else ""
+                if any(p.rsplit(".", 1)[-1].split("[")[0] == kind and (p.rsplit(".", 1)[0] if "." in p else "") == prefix and b[0] == v for p, b in before.items()):
+                    ctx.probe("starts_outside_bounds")
+                    continue
             if was is not None:
                 was_out_lo = lo is not None and was[0] < lo
                 was_out_hi = hi is not None and was[0] > hi
